@@ -1,9 +1,65 @@
 import Driver.Json
-open Lean Drv
+import Model.Rotamer
+open Lean Drv Ens Ens.Rotamer
 
 namespace Drv.C20
 
-def handle (op : String) (_req : Json) : Except String Json :=
-  throw s!"bad-op C20.{op}"
+def errStr : Err → String
+  | .dataInvalid => "data-invalid"
+  | .indexError => "index-error"
+  | .zeroDivision => "zero-division"
+  | .valueError => "value-error"
+  | .attributeError => "attribute-error"
+
+def getDType (req : Json) : Except String DType := do
+  let bits ← getNat (← field req "bits")
+  let signed ← getBool (← field req "signed")
+  pure { bits := bits, signed := signed }
+
+def handle (op : String) (req : Json) : Except String Json := do
+  match op with
+  | "rotamers" =>
+    let angles ← getList getRat (← field req "angles")
+    let hb ← getList getRat (← field req "hb")
+    let b ← getRat (← field req "b")
+    match rotamers angles hb b with
+    | .error e => pure (errJson (errStr e))
+    | .ok st => pure (okJson (listJson intJson st))
+  | "gates" =>
+    let s ← getInt (← field req "s")
+    let hb ← getList getRat (← field req "hb")
+    let b ← getRat (← field req "b")
+    match getGates s hb b with
+    | .error e => pure (errJson (errStr e))
+    | .ok g => pure (okJson (Json.arr #[ratJson g.1, ratJson g.2]))
+  | "exit" =>
+    let s ← getInt (← field req "s")
+    let a ← getRat (← field req "a")
+    let hb ← getList getRat (← field req "hb")
+    let b ← getRat (← field req "b")
+    match isBufferedTransition s a hb b with
+    | .error e => pure (errJson (errStr e))
+    | .ok r => pure (okJson (Json.bool r))
+  | "shift" =>
+    let shift ← getRat (← field req "shift")
+    let angles ← getList getRat (← field req "angles")
+    pure (okJson (listJson ratJson (angles.map (shiftAngle shift))))
+  | "transitions1d" =>
+    let d ← getDType req
+    let xs ← getList getInt (← field req "xs")
+    pure (okJson (listJson natJson (transitions1d d xs)))
+  | "transitions2d" =>
+    let d ← getDType req
+    let rows ← getList (getList getInt) (← field req "rows")
+    match transitions2d Generated.transitionsAllQuietGuard d rows with
+    | .error e => pure (errJson (errStr e))
+    | .ok out => pure (okJson (listJson (listJson natJson) out))
+  | "consts" =>
+    pure (okJson (Json.mkObj [
+      ("sets", listJson (listJson ratJson) Generated.boundarySets),
+      ("buffers", listJson ratJson Generated.defaultBuffers),
+      ("shifts", listJson ratJson [Generated.phiShift, Generated.psiShift, Generated.chiShift]),
+      ("all_quiet_guard", Json.bool Generated.transitionsAllQuietGuard)]))
+  | _ => throw s!"bad-op C20.{op}"
 
 end Drv.C20
